@@ -119,7 +119,21 @@ def run_case(case):
         m, st = build(case)
         b = bptk()
         try:
-            b.register_model(m, scenario_manager="smGrid")
+            scen = {"base": {}}
+            if case["n"] >= 3:
+                # a scenario that stops two steps before its model does, run FIRST (and first of all runs of this engine)
+                scen["short"] = {"runspecs": {"stoptime": exp[-3]}}
+            b.register_model(m, scenario_manager="smGrid", scenario=scen)
+            if "short" in scen:
+                for fmt in ("dict", "df"):
+                    r_ = b.run_scenarios(scenarios=["short"], scenario_managers=["smGrid"], equations=["s"], return_format=fmt)
+                    keys = list(r_["smGrid"]["short"]["equations"]["s"].keys()) if fmt == "dict" else list(r_.index)
+                    got_ = [float(x) for x in keys]
+                    counters["shorter_scenarios"] = counters.get("shorter_scenarios", 0) + 1
+                    if got_ != exp[:-2]:
+                        bad.append(dict(where="run_scenarios(%s) of a scenario with its own stop time" % fmt, kind="extra" if len(got_) > len(exp) - 2 else "missing" if len(got_) < len(exp) - 2 else "label",
+                                        got=got_[-4:], expected_tail=exp[-5:-2], n_got=len(got_), n_expected=len(exp) - 2))
+                        break
             # 2. batch run, three formats
             df = b.run_scenarios(scenarios=["base"], scenario_managers=["smGrid"], equations=["s"], return_format="df")
             check_list("run_scenarios(df).index", list(df.index))
